@@ -220,6 +220,19 @@ func (st *State) execCallValues(call *ast.CallExpr) []Outcome {
 			args = append(args, st.eval(a))
 		}
 		if fv.K == KFunc && fv.Fn != nil && fv.Fn.Sym != "" {
+			if id, ok := c.fval.(*ast.Ident); ok && st.fc.inlineDepth == 0 && st.fc.curContract != nil {
+				for _, tn := range st.fc.curContract.Traced {
+					if tn == id.Name && len(args) == 1 && args[0].K == KInt {
+						tr, ntr := st.ghost["tr_"+tn], st.ghost["ntr_"+tn]
+						st.ghost["tr_"+tn] = vRaw(st.define("tr", "(Array Int Int)", sStore(tr.S, ntr.S, args[0].S)), "(Array Int Int)")
+						st.ghost["ntr_"+tn] = vInt(st.define("ntr", "Int", sAdd(ntr.S, "1")), intType)
+						if st.fc.rec != nil {
+							st.fc.rec.ghosts["tr_"+tn] = true
+							st.fc.rec.ghosts["ntr_"+tn] = true
+						}
+					}
+				}
+			}
 			return one(flattenTuple(st.applyFuncVal(fv, args))...)
 		}
 		if fv.K == KFunc && fv.Obj != nil {
@@ -939,6 +952,10 @@ func (st *State) applyContract(fct *FuncContract, fn *types.Func, recv *Val, arg
 			rn[g.Name] = vInt(fc.fresh("ghost_"+g.Name, "Int"), nil)
 		}
 	}
+	for _, tn := range fct.Traced {
+		rn["tr_"+tn] = vRaw(fc.fresh("ghost_tr_"+tn, "(Array Int Int)"), "(Array Int Int)")
+		rn["ntr_"+tn] = vInt(fc.fresh("ghost_ntr_"+tn, "Int"), nil)
+	}
 	env2 := mkEnv(st, rn, old)
 	for _, e := range fct.Ensures {
 		st.assume(env2.evalBool(e.Expr))
@@ -1123,6 +1140,21 @@ func (st *State) resolveTarget(env *SpecEnv, e *SNode, add func(name, sort strin
 			if s, structT := structOf(base.T); s != nil {
 				_, comps, _ := fieldComps(structT, e.Text)
 				if comps == nil {
+					// promoted field of an embedded struct (one level)
+					for i := 0; i < s.NumFields() && comps == nil; i++ {
+						if f := s.Field(i); f.Embedded() {
+							if _, isStruct := f.Type().Underlying().(*types.Struct); isStruct {
+								_, outer, _ := fieldComps(structT, f.Name())
+								for _, c := range outer {
+									if strings.HasPrefix(c.Path, "."+f.Name()+"."+e.Text+".") || c.Path == "."+f.Name()+"."+e.Text {
+										comps = append(comps, c)
+									}
+								}
+							}
+						}
+					}
+				}
+				if comps == nil {
 					env.fail("modifies: no field %s", e.Text)
 				}
 				for _, c := range comps {
@@ -1134,6 +1166,21 @@ func (st *State) resolveTarget(env *SpecEnv, e *SNode, add func(name, sort strin
 		if base.K == KPtrVar {
 			*vars = append(*vars, base.Obj)
 			return
+		}
+		if base.K == KPtrElem && base.Sort == "field" {
+			// pointer to an embedded struct field of a heap object: (ref, outer struct, field) . name
+			outerT := base.Sub[1].T
+			_, comps, _ := fieldComps(outerT, base.S)
+			found := false
+			for _, c := range comps {
+				if strings.HasPrefix(c.Path, "."+base.S+"."+e.Text+".") || c.Path == "."+base.S+"."+e.Text {
+					add(ptrHeapName(outerT, c), ptrSort(c), false, target{kind: "field", ref: base.Sub[0].S})
+					found = true
+				}
+			}
+			if found {
+				return
+			}
 		}
 		env.fail("unsupported modifies target %s", e.String())
 	}
